@@ -39,3 +39,25 @@ pub fn install_transport(transport: Option<Arc<dyn Transport>>) {
 pub fn transport() -> Option<Arc<dyn Transport>> {
     TRANSPORT.read().unwrap_or_else(|e| e.into_inner()).clone()
 }
+
+/// Gives the simulator access to the topology behaviour inside the actor's (never connected)
+/// swarm: membership events and gossip messages are injected and collected through it.
+pub struct WithTopology(
+    pub  Box<
+        dyn FnOnce(&mut sierradb_topology::Behaviour<RemoteActorRef<ClusterActor>>)
+            + Send
+            + 'static,
+    >,
+);
+
+impl Message<WithTopology> for ClusterActor {
+    type Reply = ();
+
+    async fn handle(
+        &mut self,
+        msg: WithTopology,
+        _ctx: &mut Context<Self, Self::Reply>,
+    ) -> Self::Reply {
+        (msg.0)(&mut self.swarm.behaviour_mut().topology)
+    }
+}
